@@ -254,6 +254,9 @@ func (c07) Run(c *run.Ctx, phase, idx int) {
 						iso isolated
 						res mon.ReadResult
 					}{{iso, r1}, {iso2, r2}} {
+						if k == 1 && !r1.Accepted() {
+							break // after a refused frame the stream is lost; nothing is claimed about what follows
+						}
 						if ok, why := sameOutcome(pr.iso, pr.res); !ok {
 							c.Violation("C07/pipelined/"+acceptWord(pr.iso.Accepted), fmt.Sprintf("two frames (%s %d bytes, %s %d bytes) delivered under schedule [%s]: frame %d %s", tname(f.Type), n, tname(f2.Type), len(f2.Bytes), stepsString(steps), k, why),
 								map[string]interface{}{"frames": hexClip(both, 2048), "first_len": n, "schedule": stepsString(steps)})
